@@ -68,21 +68,23 @@ SfsOwnPoint(v, flag) == \A i \in 1..Len(v.sfs) : /\ v.sfs[i].h = v.h /\ v.sfs[i]
 SfsDistinct(v) == Cardinality({v.sfs[i].n : i \in 1..Len(v.sfs)}) = Len(v.sfs)
 SfsInSuffrage(v) == {v.sfs[i].n : i \in 1..Len(v.sfs)} \subseteq Node
 RecountOK(v) ==
-  LET vp == VPRec(v)  t == Recount(vp) IN
+  LET vp == VPRec(v)  t == RecountT(vp, v.th10) IN
   /\ vp.sfs # {}
   /\ vp.res = t.res
   /\ vp.res = "MAJORITY" => vp.mk \in t.maj
 (* m: the accepted ballots per key at the time of the count; hd: handed names *)
 CheckVP(v, m, hd) ==
-  LET info == <<v.h, v.r, v.s>> IN
+  LET info == <<v.h, v.r, v.s>>
+      (* the flag of the record a counted voteproof comes from is that of the sign facts it contains *)
+      flag == IF Len(v.sfs) > 0 THEN v.sfs[1].sc ELSE FALSE
+      k == StoreKey([h |-> v.h, r |-> v.r, s |-> v.s], flag)
+  IN
   /\ IF v.fwd # ""
-     THEN /\ Expect("C04-forwarded-unknown", v.fwd \in hd, info)
-          /\ Expect("C04-sfs-foreign-point", SfsOwnPoint(v, v.sc), info)
-     ELSE LET k == StoreKey([h |-> v.h, r |-> v.r, s |-> v.s], v.rsc) IN
-          /\ Expect("C04-point-not-voted", k \in DOMAIN m, info)
-          /\ Expect("C04-sfs-foreign-point", SfsOwnPoint(v, v.rsc), info)
+     THEN Expect("C04-forwarded-unknown", v.fwd \in hd, info)
+     ELSE /\ Expect("C04-point-not-voted", k \in DOMAIN m, info)
           /\ Expect("C04-sfs-not-accepted", k \in DOMAIN m => VotesOf(v.sfs) \subseteq m[k], info)
-          /\ Expect("C04-majority-flag", v.res = "MAJORITY" => v.sc = v.rsc, info)
+  /\ Expect("C04-sfs-foreign-point", SfsOwnPoint(v, flag), info)
+  /\ Expect("C04-majority-flag", v.res = "MAJORITY" => v.sc = flag, info)
   /\ Expect("C04-sfs-duplicate-node", SfsDistinct(v), info)
   /\ Expect("C04-sfs-outside-suffrage", SfsInSuffrage(v), info)
   /\ Expect("C04-invalid", v.v1 = "", info)
@@ -92,12 +94,13 @@ CheckVP(v, m, hd) ==
 
 (* ------------------------------------------------ the step every call shares *)
 (* S: the box after the call itself (before the count it triggers):            *)
-(*    [recs, robj, pool, gen, mat]; cleans: did a clean cycle run              *)
+(*    [recs, robj, pool, gen, mat]; cleans: did a clean cycle run - it does    *)
+(*    when countVoterecords emitted something; a ballot the record refused     *)
+(*    only has its embedded voteproof forwarded, without a clean cycle         *)
 SP3(e) == [h |-> e.h, r |-> e.r, s |-> e.s]
-Settle(O, S, hd) ==
+Settle(O, S, hd, cleans) ==
   LET last2 == LPOf(Ev.last)
       OKeys == O.keys  ORecs == O.recs  OIds == O.ids  OObj == O.obj  ORemoved == O.removed  OPD == O.pd
-      cleans == Len(Ev.vps) > 0
       gone == IF cleans THEN ReleasedKeys(S.recs, last2) ELSE {}
       erecs == Restrict(S.recs, DOMAIN S.recs \ gone)
       eremoved == IF cleans THEN {S.recs[k] : k \in gone} ELSE removed
@@ -183,19 +186,19 @@ TVote ==
         /\ Expect("X-vote-error", Ev.err = "" /\ Ev.panic = "", <<b.node, b.h, b.r, b.s>>)
         /\ Expect("C05-pool-identity", needNew => (id < 0 \/ id \notin DOMAIN gen \/ Get(pool, id) > 0), id)
         /\ handed' = hd
-        /\ Settle(O, VoteState(O, Pre, b, Ev.voted, needNew), hd)
+        /\ Settle(O, VoteState(O, Pre, b, Ev.voted, needNew), hd, Ev.voted /\ Len(Ev.vps) > 0)
   /\ Unch
 
 TCount ==
   /\ Consume /\ Ev.a = "Count"
   /\ Expect("X-count-result", Ev.ret = (Len(Ev.vps) > 0), Ev.ret)
-  /\ LET O == Obs IN Settle(O, Pre, handed)
+  /\ LET O == Obs IN Settle(O, Pre, handed, Len(Ev.vps) > 0)
   /\ UNCHANGED handed /\ Unch
 
 TSetLast ==
   /\ Consume /\ Ev.a = "SetLast"
   /\ Expect("X-setlast-result", Ev.ret = Before(last, SP3(Ev), Ev.sc), Ev.ret)
-  /\ LET O == Obs IN Settle(O, Pre, handed)
+  /\ LET O == Obs IN Settle(O, Pre, handed, Len(Ev.vps) > 0)
   /\ UNCHANGED handed /\ Unch
 
 (* C05 a: the reads depend on the ballots accepted for the stage point only    *)
@@ -205,7 +208,7 @@ TVoted ==
          want == IF k \in DOMAIN mat THEN {v \in mat[k] : v.node \in SetOf(Ev.nodes)} ELSE {}
      IN /\ Expect("C05-voted-read", VotesOf(Ev.ret) = want, <<Ev.h, Ev.r, Ev.s, Cardinality(VotesOf(Ev.ret)), Cardinality(want)>>)
         /\ Expect("C05-voted-read-foreign", \A i \in 1..Len(Ev.ret) : SP3(Ev.ret[i]) = SP3(Ev) /\ ~Ev.ret[i].sc, <<Ev.h, Ev.r, Ev.s>>)
-  /\ LET O == Obs IN Settle(O, Pre, handed)
+  /\ LET O == Obs IN Settle(O, Pre, handed, Len(Ev.vps) > 0)
   /\ UNCHANGED handed /\ Unch
 
 TMissing ==
@@ -216,7 +219,7 @@ TMissing ==
          want == IF k \notin DOMAIN mat \/ fin THEN {} ELSE (Node \ {Local}) \ Voters(mat[k])
      IN /\ Expect("C05-missing-read", SetOf(Ev.ret) = want, <<Ev.h, Ev.r, Ev.s, Len(Ev.ret), Cardinality(want)>>)
         /\ Expect("X-missing-found", Ev.found = (k \in DOMAIN mat), <<Ev.h, Ev.r, Ev.s>>)
-        /\ Settle(O, Pre, handed)
+        /\ Settle(O, Pre, handed, Len(Ev.vps) > 0)
   /\ UNCHANGED handed /\ Unch
 
 (* a new ballot box; the recycle pool and its counters belong to the process   *)
@@ -247,8 +250,7 @@ TRet ==
   /\ Expect("X-call-error", Ev.err = "" /\ Ev.panic = "", Ev.c)
   /\ IF Ev.op = "Vote" /\ Ev.voted /\ Ev.c \in DOMAIN calls
      THEN LET b == BallotOf(calls[Ev.c])  k == StoreKey(SPOf(b), b.sc) IN
-          /\ acc' = [j \in DOMAIN acc \cup {k} |-> (IF j \in DOMAIN acc THEN acc[j] ELSE {}) \cup (IF j = k THEN {VoteOf(b)} ELSE {})]
-          /\ Expect("C05-vote-passed-point", ~Passed(last, SPOf(b)), <<b.node, b.h, b.r, b.s>>)
+          acc' = [j \in DOMAIN acc \cup {k} |-> (IF j \in DOMAIN acc THEN acc[j] ELSE {}) \cup (IF j = k THEN {VoteOf(b)} ELSE {})]
      ELSE UNCHANGED acc
   /\ UNCHANGED <<vars, handed, dead, calls, setlast>>
 (* everything has come to rest. Facts that hold for every schedule: a live      *)
